@@ -497,22 +497,47 @@ const SimScenario tgscen = {"c20traceg", "C20", LANE_DEBUG, treset, tplan_global
 SimRegistrar tgreg(&tgscen);
 
 // ---------------------------------------------------------------- images
-C20IPlan iplan;
+C20IPlan iplans[3];
+int nimages;
+char ipaths[3][280];
+C20IPlan iplan;  // the image being checked
 bool written;
 const char *no_faults[] = {nullptr};
-enum { PI_SINGLE_ROW = 0, PI_SINGLE_COL, PI_NONSQUARE, PI_WIDE };
-const char *iprobe_names[] = {"single_row", "single_column", "non_square", "width_above_4000", nullptr};
+enum { PI_SINGLE_ROW = 0, PI_SINGLE_COL, PI_NONSQUARE, PI_WIDE, PI_CONCURRENT };
+const char *iprobe_names[] = {"single_row", "single_column", "non_square", "width_above_4000", "images_written_concurrently", nullptr};
 const char *fmtname[] = {"PPM", "PGM", "PFM<float>", "PFM<vec3f>", "PFM<vec3fa>", "PFM<vec4f>"};
 
 void ireset()
 {
   memset(&iplan, 0, sizeof iplan);
+  memset(iplans, 0, sizeof iplans);
+  nimages = 1;
   written = false;
   mkdir("/verif/build/scratch", 0777);
   snprintf(g_path, sizeof g_path, "/verif/build/scratch/c20_%d.out", (int)getpid());
-  unlink(g_path);
+  for (int i = 0; i < 3; i++) {
+    snprintf(ipaths[i], sizeof ipaths[i], "%s.%d", g_path, i);
+    unlink(ipaths[i]);
+  }
 }
+void one_image_plan(int tier, bool small);
 void iplan_fn(int tier)
+{
+  // one image, or (1 run in 4) two or three images written concurrently by their own threads, often
+  // by the same writer
+  nimages = sim_plan(4) == 0 ? 2 + (int)sim_plan(2) : 1;
+  int common = (int)sim_plan(6);
+  bool same = sim_plan(3) != 0;
+  for (int i = 0; i < nimages; i++) {
+    one_image_plan(tier, nimages > 1);
+    if (nimages > 1 && same)
+      iplan.format = common;
+    iplans[i] = iplan;
+  }
+  if (nimages > 1)
+    sim_probe(PI_CONCURRENT);
+}
+void one_image_plan(int tier, bool small)
 {
   iplan.format = (int)sim_plan(6);
   int mx = tier ? 40 : 24;
@@ -523,7 +548,10 @@ void iplan_fn(int tier)
     iplan.w = 1;
   if (k == 1)
     iplan.h = 1;
-  if (sim_plan(14) == 0) {  // rows far wider than any fixed-size staging buffer
+  if (small) {
+    iplan.w = 1 + (int)sim_plan(12);
+    iplan.h = 1 + (int)sim_plan(6);
+  } else if (sim_plan(14) == 0) {  // rows far wider than any fixed-size staging buffer
     iplan.w = 4000 + (int)sim_plan(5200);
     iplan.h = 1 + (int)sim_plan(2);
     sim_probe(PI_WIDE);
@@ -533,12 +561,20 @@ void iplan_fn(int tier)
 inline unsigned char bytev(int x, int y, int c, int seed) { return (unsigned char)(x * 7 + y * 13 + c * 50 + seed); }
 inline float floatv(int x, int y, int c, int seed) { return (float)(x + 100 * y + 10000 * c + seed) + 0.5f; }
 
+void icheck_one(const char *path);
 void icheck()
 {
   if (!written) {
     sim_fail("C20:image:writer-did-not-return", "writer did not return");
     return;
   }
+  for (int i = 0; i < nimages && !sim_failed(); i++) {
+    iplan = iplans[i];
+    icheck_one(ipaths[i]);
+  }
+}
+void icheck_one(const char *path)
+{
   if (iplan.h == 1)
     sim_probe(PI_SINGLE_ROW);
   if (iplan.w == 1)
@@ -546,11 +582,11 @@ void icheck()
   if (iplan.w != iplan.h)
     sim_probe(PI_NONSQUARE);
   std::string data;
-  if (!read_file(g_path, data)) {
+  if (!read_file(path, data)) {
     sim_fail("C20:image:no-file", "no file written");
     return;
   }
-  unlink(g_path);
+  unlink(path);
   static const char *magic[] = {"P6", "P5", "Pf", "PF", "PF", "PF4"};
   static const int ncomp[] = {3, 1, 1, 3, 3, 4};
   bool bytefmt = iplan.format < 2;
@@ -597,7 +633,14 @@ void icheck()
   if (px[want - hl - 1] != '\n')
     sim_fail("C20:image:missing-trailing-newline", "file does not end in a newline");
 }
-void idescribe(char *buf, size_t n) { snprintf(buf, n, "{\"format\": \"%s\", \"width\": %d, \"height\": %d, \"pattern_seed\": %d}", fmtname[iplan.format], iplan.w, iplan.h, iplan.seed); }
+void idescribe(char *buf, size_t n)
+{
+  int k = snprintf(buf, n, "{\"images\": [");
+  for (int i = 0; i < nimages; i++)
+    k += snprintf(buf + k, n - k, "%s{\"format\": \"%s\", \"width\": %d, \"height\": %d, \"pattern_seed\": %d}", i ? "," : "", fmtname[iplans[i].format],
+                  iplans[i].w, iplans[i].h, iplans[i].seed);
+  snprintf(buf + k, n - k, "], \"written_concurrently\": %d}", nimages > 1);
+}
 const SimScenario iscen = {"c20img", "C20", LANE_DEBUG, ireset, iplan_fn, c20img_run, icheck, stuck, idescribe, no_faults, iprobe_names, 1, 0};
 SimRegistrar ireg(&iscen);
 }  // namespace
@@ -626,7 +669,10 @@ void c20t_saved()
   sim_event(2010, 0, 0);
   saved = true;
 }
-const C20IPlan *c20i_plan() { return &iplan; }
+const C20IPlan *c20i_plan() { return &iplans[0]; }
+int c20i_count() { return nimages; }
+const C20IPlan *c20i_plan_n(int i) { return &iplans[i]; }
+const char *c20_path_n(int i) { return ipaths[i]; }
 void c20i_written()
 {
   sim_event(2020, 0, 0);
